@@ -666,3 +666,372 @@ Proof.
   cbn in Hb. apply andb_prop in Hb. destruct Hb as [_ Hb]. apply andb_prop in Hb. destruct Hb as [Hb _].
   apply andb_prop in Hb. destruct Hb as [_ Hb]. apply Z.leb_le. exact Hb.
 Qed.
+
+(* ------------------------------------------------------------------------------------------------------------ *)
+(* D. every segment starts on a sync sample (one video track, first sample of the track is a sync sample) *)
+
+Fixpoint sscan (seen : bool) (l : list sop) : option bool :=
+  match l with
+  | [] => Some seen
+  | SCreate _ _ _ :: r => sscan false r
+  | SPart _ p :: r => if seen || first_video_sync p.(o_smps) then sscan (seen || has_video p.(o_smps)) r else None
+  | SClose _ _ :: r => sscan seen r
+  end.
+Lemma sscan_app : forall l1 seen l2,
+  sscan seen (l1 ++ l2) = match sscan seen l1 with Some s' => sscan s' l2 | None => None end.
+Proof.
+  induction l1 as [|o r IH]; intros seen l2; [reflexivity|]. destruct o; cbn; auto.
+  destruct (seen || first_video_sync (o_smps p)); auto.
+Qed.
+Lemma sscan_sync : forall l seen, sync_scan seen l = true <-> exists s', sscan seen l = Some s'.
+Proof.
+  induction l as [|o r IH]; intros seen; cbn; [split; eauto|]. destruct o; auto.
+  destruct (seen || first_video_sync (o_smps p)); cbn; [apply IH|]. split; [discriminate|intros [s' [=]]].
+Qed.
+
+Lemma fvs_app a b : first_video_sync (a ++ b) = if has_video a then first_video_sync a else first_video_sync b.
+Proof.
+  induction a as [|w r IH]; [reflexivity|]. cbn. destruct (w_video w); cbn; auto.
+Qed.
+Lemma has_video_app a b : has_video (a ++ b) = has_video a || has_video b.
+Proof. unfold has_video. apply existsb_app. Qed.
+
+Definition seg_created (sg : option sst) : bool := match sg with Some g => g.(g_created) | None => false end.
+(* seen for the current segment, before and after its current part *)
+Definition seen_cur (seen : bool) (sg : option sst) : bool := if seg_created sg then seen else false.
+Definition DLog (sg : option sst) (lg : list sop) (seen' : bool) : Prop :=
+  exists seen, sscan false lg = Some seen /\
+               (seen_cur seen sg || first_video_sync (cur_smps sg)) = true /\
+               seen' = seen_cur seen sg || has_video (cur_smps sg).
+
+Lemma dlog_ensure sg ns g0 ns0 lg s' : ensure sg ns g0 ns0 -> DLog sg lg s' -> DLog (Some g0) lg s'.
+Proof. intros [g n|n d m] H; [exact H|]. destruct H as (seen & H1 & H2 & H3). exists seen. cbn in *. auto. Qed.
+
+Lemma dlog_close_part g lg s' : DLog (Some g) lg s' -> g_cur g <> None ->
+  sscan false (lg ++ close_part_ops g) = Some s'.
+Proof.
+  intros (seen & H1 & H2 & H3) Hc. rewrite sscan_app, H1. unfold close_part_ops, create_ops.
+  unfold seen_cur, seg_created, cur_smps in *. destruct (g_cur g) as [p|]; [|now destruct Hc].
+  destruct (g_created g); cbn [app sscan opart_of o_smps]; rewrite H2, H3; reflexivity.
+Qed.
+
+(* formatFMP4Segment.write keeps DLog when the sample may start the segment's video *)
+Lemma dlog_seg_write c rate g w lg g1 lg1 ok s' : DLog (Some g) lg s' ->
+  (s' = false -> w_video w = true -> s_nonsync (w_smp w) = false) ->
+  seg_write c rate g w lg = (g1, lg1, ok) ->
+  DLog (Some g1) lg1 (if ok then s' || w_video w else s').
+Proof.
+  intros HD Hw Hs. destruct (seg_write_spec c rate g w lg) as (g' & Hsp & _ & _ & _ & Hcr & _ & Hcur).
+  rewrite Hsp in Hs. injection Hs as <- <- <-.
+  assert (Hone : (s' || first_video_sync [w]) = true).
+  { cbn. destruct s'; [reflexivity|]. destruct (w_video w); [|reflexivity]. cbn. now rewrite Hw. }
+  unfold sw_ops, sw_part, sw_created, sw_full in *.
+  destruct (g_cur g) as [p|] eqn:Hc.
+  - destruct (p_end p - p_start p >=? c_part_dur c).
+    + assert (Hcl : sscan false (lg ++ close_part_ops g) = Some s').
+      { apply dlog_close_part; [exact HD|]. rewrite Hc. discriminate. }
+      exists s'. split; [exact Hcl|]. unfold seen_cur, seg_created, cur_smps. rewrite Hcr, Hcur, orb_true_r.
+      destruct (part_write _ _ _ _ w) as [p'|] eqn:Hp.
+      * apply part_write_smps in Hp. destruct Hp as (-> & _). cbn [new_part p_smps app].
+        split; [exact Hone|]. cbn. now rewrite orb_false_r.
+      * cbn. rewrite !orb_true_r, orb_false_r. auto.
+    + rewrite app_nil_r. destruct HD as (seen & H1 & H2 & H3). exists seen. split; [exact H1|].
+      unfold seen_cur, seg_created, cur_smps in *. rewrite Hcr, Hcur, orb_false_r. rewrite Hc in H2, H3.
+      destruct (part_write _ _ _ _ w) as [p'|] eqn:Hp; [|auto].
+      apply part_write_smps in Hp. destruct Hp as (-> & _). rewrite fvs_app, has_video_app.
+      set (sc := if g_created g then seen else false) in *.
+      destruct sc; cbn [orb] in *; [subst; split; reflexivity|]. subst s'.
+      destruct (has_video (p_smps p)); [split; [exact H2|reflexivity]|].
+      cbn [orb] in *. split; [|cbn; now rewrite orb_false_r]. exact Hone.
+  - rewrite app_nil_r. destruct HD as (seen & H1 & H2 & H3). exists seen. split; [exact H1|].
+    unfold seen_cur, seg_created, cur_smps in *. rewrite Hcr, Hcur, orb_false_r. rewrite Hc in H2, H3.
+    cbn [has_video existsb] in H3. rewrite orb_false_r in H3. rewrite <- H3.
+    destruct (part_write _ _ _ _ w) as [p'|] eqn:Hp.
+    + apply part_write_smps in Hp. destruct Hp as (-> & _). cbn [new_part p_smps app].
+      split; [exact Hone|]. cbn. now rewrite orb_false_r.
+    + cbn. rewrite !orb_true_r, orb_false_r. auto.
+Qed.
+
+Lemma dlog_seg_close g lg s' : DLog (Some g) lg s' -> exists s'', sscan false (lg ++ seg_close_ops g) = Some s''.
+Proof.
+  intros HD. unfold seg_close_ops. destruct (g_cur g) as [p|] eqn:Hc.
+  - rewrite app_assoc, sscan_app, (dlog_close_part g lg s' HD) by (rewrite Hc; discriminate).
+    destruct (g_created (close_part_seg g)); cbn; eauto.
+  - unfold close_part_ops. rewrite Hc. cbn [app]. destruct HD as (seen & H1 & _). rewrite sscan_app, H1.
+    destruct (g_created (close_part_seg g)); cbn; eauto.
+Qed.
+
+Lemma nth_error_upd_eq {A} : forall (l : list A) i a x, nth_error l i = Some a -> nth_error (upd l i x) i = Some x.
+Proof. induction l as [|b r IH]; intros [|i] a x H; cbn in *; try discriminate; eauto. Qed.
+Lemma nth_error_upd_neq {A} : forall (l : list A) i j x, i <> j -> nth_error (upd l i x) j = nth_error l j.
+Proof.
+  induction l as [|b r IH]; intros i j x H; [destruct i; reflexivity|].
+  destruct i as [|i], j as [|j]; cbn; auto; try (now destruct H); try (apply IH; congruence).
+Qed.
+Lemma length_upd {A} : forall (l : list A) i x, length (upd l i x) = length l.
+Proof. induction l as [|b r IH]; intros [|i] x; cbn; auto. Qed.
+
+Definition one_v (c : cfg) (v : nat) : Prop :=
+  (exists tc, nth_error c.(c_tracks) v = Some tc /\ tc.(tc_video) = true) /\
+  forall t tc, nth_error c.(c_tracks) t = Some tc -> tc.(tc_video) = true -> t = v.
+
+Definition DFull (c : cfg) (v : nat) (x : st) (evs : list event) : Prop :=
+  exists s', DLog x.(x_seg) x.(x_log) s'
+  /\ (forall tr, nth_error x.(x_trk) v = Some tr -> tr.(t_next) = None -> first_v_sync v evs = true)
+  /\ (s' = false -> forall tr s0, nth_error x.(x_trk) v = Some tr -> tr.(t_next) = Some s0 ->
+                    s0.(s_nonsync) = false \/ tr.(t_skip) = true)
+  /\ (x.(x_hasvideo) = false -> forall tr, nth_error x.(x_trk) v = Some tr -> tr.(t_next) = None)
+  /\ length x.(x_trk) = length c.(c_tracks).
+Definition DLogX (x : st) : Prop := exists s', DLog x.(x_seg) x.(x_log) s'.
+
+Lemma dlog_new_seg g lg s' num d n :
+  DLog (Some g) lg s' -> DLog (Some (new_seg num d n)) (seg_close g lg) false.
+Proof.
+  intros HD. rewrite seg_close_spec. destruct (dlog_seg_close g lg s' HD) as [s'' Hs].
+  exists s''. split; [exact Hs|]. cbn. auto.
+Qed.
+
+Lemma dfull_step c v t s x x' o evs : one_v c v -> DFull c v x ((t, s) :: evs) ->
+  track_write c t s x = (x', o) -> DLogX x' /\ (o <> o_err -> DFull c v x' evs).
+Proof.
+  intros [(tcv & Htcv & Hvid) Huniq] (s1 & HD & Hfirst & Hsafe & Hhv & Hlen).
+  unfold track_write.
+  destruct (nth_error (c_tracks c) t) as [tc|] eqn:Htc.
+  2:{ intros [= <- <-]. split; [exists s1; exact HD|]. intros _. exists s1. repeat split; auto.
+      intros tr Htr Hn. specialize (Hfirst tr Htr Hn). cbn in Hfirst.
+      destruct (Nat.eqb t v) eqn:E; [|exact Hfirst]. apply Nat.eqb_eq in E. subst t. congruence. }
+  destruct (nth_error (x_trk x) t) as [tr|] eqn:Htr.
+  2:{ exfalso. apply nth_error_None in Htr. assert (nth_error (c_tracks c) t <> None) by congruence.
+      apply nth_error_Some in H. lia. }
+  (* facts about the video track after an update of track t *)
+  assert (Hvt : tc_video tc = true -> t = v) by (intros; eapply Huniq; eauto).
+  assert (Htv : t = v -> tc_video tc = true) by (intros ->; congruence).
+  assert (Hfirst' : t <> v -> forall tr0, nth_error (x_trk x) v = Some tr0 -> t_next tr0 = None ->
+                                         first_v_sync v evs = true).
+  { intros Hne tr0 H1 H2. specialize (Hfirst tr0 H1 H2). cbn in Hfirst.
+    destruct (Nat.eqb t v) eqn:E; [apply Nat.eqb_eq in E; contradiction|exact Hfirst]. }
+  destruct (t_next tr) as [prev|] eqn:Hnext.
+  2:{ intros [= <- <-]. cbn [mk_st x_seg x_log x_trk x_hasvideo]. split; [exists s1; exact HD|]. intros _.
+      exists s1. cbn [mk_st x_seg x_log x_trk x_hasvideo]. rewrite length_upd.
+      split; [exact HD|]. destruct (Nat.eq_dec t v) as [->|Hne].
+      - rewrite (nth_error_upd_eq _ _ _ _ Htr). repeat split; auto.
+        + intros tr0 [= <-]. discriminate.
+        + intros _ tr0 s0 [= <-] [= <-]. left. specialize (Hfirst tr Htr Hnext). cbn in Hfirst.
+          rewrite Nat.eqb_refl in Hfirst. now destruct (s_nonsync s).
+        + rewrite (Htv eq_refl), orb_true_r. discriminate.
+      - rewrite (nth_error_upd_neq _ _ _ _ Hne). repeat split; auto.
+        + intros tr0 H1 H2. eapply Hfirst'; eauto.
+        + intros Hh. apply orb_false_iff in Hh. destruct Hh as [Hh _]. auto. }
+  set (d0 := s_dts s - s_dts prev). set (sn := if d0 <? 0 then set_dts s (s_dts prev) else s).
+  set (dur := wrapu32 _). set (dts := ts2dur (s_dts prev) (tc_rate tc)).
+  set (tr2 := if t_init tr then _ else _).
+  assert (Htr2 : t_next tr2 = Some sn /\ t_skip tr2 = t_skip tr) by (subst tr2; destruct (t_init tr); cbn; auto).
+  destruct Htr2 as [Hn2 Hs2].
+  assert (Hsn : s_nonsync sn = s_nonsync s) by (subst sn; destruct (d0 <? 0); reflexivity).
+  destruct (t_init tr && _).
+  { intros [= <- <-]. split; [exists s1; exact HD|]. intros H; now destruct H. }
+  pose proof (ensure_of (x_seg x) (x_nextseg x) dts (s_ntp prev)) as He.
+  set (g0 := match x_seg x with Some g => g | None => _ end) in *.
+  set (ns0 := match x_seg x with Some _ => x_nextseg x | None => x_nextseg x + 1 end) in *.
+  pose proof (dlog_ensure _ _ _ _ _ _ He HD) as HD0.
+  (* the generic closing argument for the states whose video track is unchanged or discarding *)
+  assert (Hgen : forall trk' hv' sg' ns' lg' ac' ou' s2 trn,
+            DLog sg' lg' s2 -> trk' = upd (x_trk x) t trn -> t_next trn = Some sn ->
+            hv' = x_hasvideo x || tc_video tc ->
+            (t = v -> s2 = false -> s_nonsync sn = false \/ t_skip trn = true) ->
+            (t <> v -> s2 = false -> s1 = false \/ x_hasvideo x = false) ->
+            DFull c v (mk_st trk' hv' sg' ns' lg' ac' ou') evs).
+  { intros trk' hv' sg' ns' lg' ac' ou' s2 trn HD2 -> Hnn -> Hv1 Hv2.
+    exists s2. cbn [mk_st x_seg x_log x_trk x_hasvideo]. rewrite length_upd. split; [exact HD2|].
+    destruct (Nat.eq_dec t v) as [->|Hne].
+    - rewrite (nth_error_upd_eq _ _ _ _ Htr). repeat split; auto.
+      + intros tr0 [= <-]. congruence.
+      + intros Hs tr0 s0 [= <-] Hs0. rewrite Hnn in Hs0. injection Hs0 as <-. auto.
+      + rewrite (Htv eq_refl), orb_true_r. discriminate.
+    - rewrite (nth_error_upd_neq _ _ _ _ Hne). repeat split; auto.
+      + intros tr0 H1 H2. eapply Hfirst'; eauto.
+      + intros Hs tr0 s0 H1 H2. destruct (Hv2 Hne Hs) as [Hs1|Hh]; [eapply Hsafe; eauto|].
+        rewrite (Hhv Hh tr0 H1) in H2. discriminate.
+      + intros Hh. apply orb_false_iff in Hh. destruct Hh as [Hh _]. auto. }
+  destruct (match x_seg x with Some g => dts - g_start g <? 0 | None => false end).
+  { intros [= <- <-]. split; [exists s1; exact HD0|]. intros _.
+    eapply Hgen; [exact HD0|reflexivity|exact Hn2| reflexivity | |auto].
+    intros -> _. right. cbn. apply Htv. reflexivity. }
+  destruct (t_skip tr2 && s_nonsync prev) eqn:Hsk.
+  { intros [= <- <-]. split; [exists s1; exact HD0|]. intros _.
+    eapply Hgen; [exact HD0|reflexivity|exact Hn2|reflexivity| |auto].
+    intros _ _. right. apply andb_prop in Hsk. tauto. }
+  set (w := Build_wsmp _ _ _ _ _ _).
+  assert (Hwc : s1 = false -> w_video w = true -> s_nonsync (w_smp w) = false).
+  { cbn. intros Hs1 Hv. specialize (Hvt Hv). subst t.
+    destruct (Hsafe Hs1 tr prev Htr Hnext) as [Hp|Hp]; [exact Hp|].
+    rewrite Hs2, Hp in Hsk. cbn in Hsk. exact Hsk. }
+  destruct (seg_write c (tc_rate tc) g0 w (x_log x)) as [[g1 lg1] ok] eqn:Hw.
+  pose proof (dlog_seg_write _ _ _ _ _ _ _ _ _ HD0 Hwc Hw) as HD1.
+  destruct ok; cbn [negb].
+  - destruct ((negb (x_hasvideo x || tc_video tc) || tc_video tc) && negb (s_nonsync sn)
+              && (ts2dur (s_dts sn) (tc_rate tc) - g_start g1 >=? c_seg_dur c)) eqn:Hsw.
+    + destruct (next_start _) as [ontp odts]. intros [= <- <-].
+      pose proof (dlog_new_seg g1 lg1 _ ns0 odts ontp HD1) as HDn.
+      split; [eexists; exact HDn|]. intros _.
+      apply andb_prop in Hsw. destruct Hsw as [Hsw _]. apply andb_prop in Hsw. destruct Hsw as [Hsw1 Hsw2].
+      eapply Hgen; [exact HDn|reflexivity|cbn; exact Hn2|reflexivity| |].
+      * intros _ _. left. now destruct (s_nonsync sn).
+      * intros Hne _. right. destruct (tc_video tc) eqn:Hv; [now specialize (Hvt eq_refl)|].
+        rewrite orb_false_r in Hsw1. now destruct (x_hasvideo x).
+    + intros [= <- <-]. split; [eexists; exact HD1|]. intros _.
+      eapply Hgen; [exact HD1|reflexivity|cbn; exact Hn2|reflexivity| |].
+      * intros -> Hs. unfold w in Hs. cbn [w_video] in Hs. rewrite (Htv eq_refl), orb_true_r in Hs. discriminate.
+      * intros _ Hs. apply orb_false_iff in Hs. tauto.
+  - intros [= <- <-]. split; [eexists; exact HD1|]. intros H; now destruct H.
+Qed.
+
+Lemma dfull_run c v : one_v c v -> forall evs x, DFull c v x evs -> DLogX (run_from c x evs).
+Proof.
+  intros Hv. induction evs as [|[t s] r IH]; intros x HD; cbn [run_from].
+  - destruct HD as (s' & H & _). exists s'. exact H.
+  - destruct (track_write c t s x) as [x' o] eqn:Ht.
+    destruct (dfull_step c v t s x x' o r Hv HD Ht) as [H1 H2].
+    destruct (o =? o_err) eqn:E.
+    + destruct H1 as [s' H1]. exists s'. exact H1.
+    + apply IH. apply Z.eqb_neq in E. specialize (H2 E).
+      destruct H2 as (s' & A & B & C & D & F). exists s'. repeat split; auto.
+Qed.
+
+Lemma dlog_finish x : DLogX x -> sync_scan false (x_log (finish x)) = true.
+Proof.
+  intros [s' HD]. apply sscan_sync. unfold finish. destruct (x_seg x) as [g|] eqn:Hg; cbn [mk_st x_log].
+  - rewrite seg_close_spec. eapply dlog_seg_close; eauto.
+  - destruct HD as (seen & H & _). eauto.
+Qed.
+
+Lemma one_v_of c v : video_tracks c = [v] -> one_v c v.
+Proof.
+  intros Hv. unfold video_tracks in Hv.
+  assert (Hin : forall t, In t [v] <-> (t < length (c_tracks c))%nat /\
+                 match nth_error (c_tracks c) t with Some tc => tc_video tc | None => false end = true).
+  { intros t. rewrite <- Hv, filter_In, in_seq. split; intros [A B]; split; auto; lia. }
+  split.
+  - destruct (proj1 (Hin v) (or_introl eq_refl)) as [_ H]. destruct (nth_error (c_tracks c) v) as [tc|]; [eauto|discriminate].
+  - intros t tc Ht Hvid. assert (H : In t [v]).
+    { apply Hin. split; [apply nth_error_Some; congruence|now rewrite Ht]. }
+    destruct H as [H|[]]. auto.
+Qed.
+
+Lemma sync_raw c v evs : video_tracks c = [v] -> first_v_sync v evs = true ->
+  sync_scan false (x_log (run_raw c evs)) = true.
+Proof.
+  intros Hv Hf. unfold run_raw. apply dlog_finish. apply (dfull_run c v (one_v_of c v Hv)).
+  assert (Hinit : forall tr, nth_error (map (fun _ : tcfg => init_tst) (c_tracks c)) v = Some tr -> tr = init_tst).
+  { intros tr Htr. apply nth_error_In in Htr. apply in_map_iff in Htr. destruct Htr as (_ & <- & _). reflexivity. }
+  exists false. split; [exists false; cbn; auto|]. cbn [init_st mk_st x_trk x_hasvideo].
+  split; [intros; exact Hf|]. split; [|split].
+  - intros _ tr s0 Htr Hn. rewrite (Hinit tr Htr) in Hn. discriminate.
+  - intros _ tr Htr. rewrite (Hinit tr Htr). reflexivity.
+  - apply map_length.
+Qed.
+
+(* the gate delivers a stream whose first video sample is a sync sample *)
+Lemma gate_first c v : one_v c v -> forall evs passed, ~ In v passed ->
+  first_v_sync v (gate_from c passed evs) = true.
+Proof.
+  intros [(tcv & Htcv & Hvid) Huniq]. induction evs as [|[t s] r IH]; intros passed Hp; [reflexivity|].
+  cbn [gate_from]. destruct (nth_error (c_tracks c) t) as [tc|] eqn:Ht.
+  - destruct (negb (tc_video tc) || existsb (Nat.eqb t) passed) eqn:E.
+    + cbn [first_v_sync]. destruct (Nat.eqb t v) eqn:Etv; [|apply IH; exact Hp].
+      apply Nat.eqb_eq in Etv. subst t. rewrite Htcv in Ht. injection Ht as <-. rewrite Hvid in E. cbn in E.
+      apply existsb_exists in E. destruct E as (u & Hu & Eu). apply Nat.eqb_eq in Eu. subst u. contradiction.
+    + apply orb_false_iff in E. destruct E as [E1 E2]. apply negb_false_iff in E1.
+      pose proof (Huniq _ _ Ht E1) as ->. destruct (s_nonsync s) eqn:Es; [apply IH; exact Hp|].
+      cbn [first_v_sync]. rewrite Nat.eqb_refl, Es. reflexivity.
+  - cbn [first_v_sync]. destruct (Nat.eqb t v) eqn:Etv; [|apply IH; exact Hp].
+    apply Nat.eqb_eq in Etv. subst t. congruence.
+Qed.
+
+Lemma sync_run c v evs : video_tracks c = [v] -> sync_scan false (x_log (run c evs)) = true.
+Proof.
+  intros Hv. unfold run. apply (sync_raw c v); [exact Hv|]. unfold gate.
+  apply gate_first; [apply one_v_of; exact Hv|intros []].
+Qed.
+
+(* from the log to the files *)
+Lemma files_from_sync : forall l done cur o n s' seen sf, log_run (o, n) l = Some s' -> cur_ok cur o ->
+  sscan seen l = Some sf ->
+  (forall f, cur = Some f -> seen = has_video (file_samples f) /\ first_video_sync (file_samples f) = true) ->
+  (forall f, In f done -> first_video_sync (file_samples f) = true) ->
+  forall f, In f (files_from done cur l) -> first_video_sync (file_samples f) = true.
+Proof.
+  induction l as [|op r IH]; intros done cur o n s' seen sf Hr Hc Hs Hcur Hd f Hin.
+  - cbn in Hin. apply in_rev in Hin. destruct cur as [g|]; [|auto]. destruct Hin as [<-|Hin]; [|auto].
+    apply (Hcur g eq_refl).
+  - cbn [log_run] in Hr. destruct op as [k a b|k p|k d]; destruct o as [j|]; cbn [op_step] in Hr; try discriminate.
+    + destruct cur as [g|]; [destruct Hc|]. destruct (k =? n) eqn:E; [|discriminate].
+      cbn [files_from] in Hin. cbn [sscan] in Hs.
+      assert (Hc' : cur_ok (Some {| f_num := k; f_sdts := a; f_sntp := b; f_parts := []; f_closed := None |}) (Some k))
+        by (split; reflexivity).
+      refine (IH _ _ _ _ _ _ _ Hr Hc' Hs _ Hd f Hin). intros f0 [= <-]. cbn. auto.
+    + destruct cur as [g|]; [|destruct Hc]. destruct Hc as [Hn Hcl]. destruct (k =? j) eqn:E; [|discriminate].
+      cbn [files_from option_map] in Hin. cbn [sscan] in Hs.
+      destruct (seen || first_video_sync (o_smps p)) eqn:Hchk; [|discriminate].
+      assert (Hc' : cur_ok (Some (add_part g p)) (Some j)) by (split; [exact Hn|exact Hcl]).
+      refine (IH _ _ _ _ _ _ _ Hr Hc' Hs _ Hd f Hin). intros f0 [= <-].
+      destruct (Hcur g eq_refl) as [H1 H2]. unfold file_samples, add_part. cbn [f_parts].
+      rewrite flat_map_app. cbn [flat_map]. rewrite app_nil_r. fold (file_samples g).
+      rewrite has_video_app, fvs_app, <- H1. split; [reflexivity|].
+      destruct seen; [exact H2|exact Hchk].
+    + destruct cur as [g|]; [|destruct Hc]. destruct Hc as [Hn Hcl]. destruct (k =? j) eqn:E; [|discriminate].
+      cbn [files_from] in Hin. cbn [sscan] in Hs.
+      refine (IH _ None _ _ _ _ _ Hr I Hs _ _ f Hin); [intros f0 [=]|].
+      intros f' [<-|Hf']; [|auto]. apply (Hcur g eq_refl).
+Qed.
+
+Lemma files_sync l : log_ok None 0 l = true -> sync_scan false l = true ->
+  forall f, In f (files_of l) -> first_video_sync (file_samples f) = true.
+Proof.
+  intros Hok Hs f Hin. apply log_ok_run in Hok. destruct Hok as [s' Hr]. apply sscan_sync in Hs. destruct Hs as [sf Hs].
+  unfold files_of in Hin. refine (files_from_sync _ _ None _ _ _ _ _ Hr I Hs _ _ f Hin); [intros f0 [=]|intros f0 []].
+Qed.
+
+(* ------------------------------------------------------------------------------------------------------------ *)
+(* F. the log only grows: what is on disk when the process stops after any number of samples is a prefix of the
+      final log *)
+
+Lemma log_extends_step c t s x x' o : track_write c t s x = (x', o) -> exists l', x_log x' = x_log x ++ l'.
+Proof.
+  intros Ht. assert (Hl : forall y, x_log y = snd (fst (view y))) by reflexivity. rewrite !Hl.
+  destruct (track_write_cases _ _ _ _ _ _ Ht) as
+    [(sg & ns & lg & ac & g0 & ns0 & rate & w & g1 & lg1 & Hv & He & Hw & Hv' & _)
+    |[Hv'|[(sg & ns & lg & ac & g0 & ns0 & Hv & He & Hv')
+    |(sg & ns & lg & ac & g0 & ns0 & rate & w & g1 & lg1 & Hv & He & Hw & Hv')]]].
+  - rewrite Hv, Hv'. cbn. destruct (seg_write_spec c rate g0 w lg) as (g' & Hs & _). rewrite Hs in Hw.
+    injection Hw as _ <- _. eauto.
+  - rewrite Hv'. exists []. now rewrite app_nil_r.
+  - rewrite Hv, Hv'. cbn. exists []. now rewrite app_nil_r.
+  - destruct (seg_write_spec c rate g0 w lg) as (g' & Hs & _). rewrite Hs in Hw. injection Hw as _ <- _.
+    rewrite Hv. destruct Hv' as [->|(d & n & ->)]; cbn; [eauto|]. rewrite seg_close_spec, <- app_assoc. eauto.
+Qed.
+Lemma log_extends c : forall evs x, exists l', x_log (run_from c x evs) = x_log x ++ l'.
+Proof.
+  induction evs as [|[t s] r IH]; intros x; cbn [run_from]; [exists []; now rewrite app_nil_r|].
+  destruct (track_write c t s x) as [x' o] eqn:Ht. destruct (log_extends_step _ _ _ _ _ _ Ht) as [l1 H1].
+  destruct (o =? o_err); [exists l1; exact H1|].
+  destruct (IH (add_out x' o)) as [l2 H2]. exists (l1 ++ l2). rewrite H2. cbn. rewrite H1, app_assoc. reflexivity.
+Qed.
+Lemma finish_extends x : exists l', x_log (finish x) = x_log x ++ l'.
+Proof.
+  unfold finish. destruct (x_seg x); cbn; [rewrite seg_close_spec; eauto|exists []; now rewrite app_nil_r].
+Qed.
+Lemma log_prefix_from c : forall evs x k,
+  exists l', x_log (finish (run_from c x evs)) = x_log (run_from c x (firstn k evs)) ++ l'.
+Proof.
+  induction evs as [|[t s] r IH]; intros x k.
+  - rewrite firstn_nil. cbn. apply finish_extends.
+  - destruct k as [|k]; cbn [firstn].
+    + destruct (finish_extends (run_from c x ((t, s) :: r))) as [l1 H1].
+      destruct (log_extends c ((t, s) :: r) x) as [l2 H2]. exists (l2 ++ l1). rewrite H2 in H1.
+      etransitivity; [exact H1|]. cbn [run_from]. now rewrite app_assoc.
+    + cbn [run_from]. destruct (track_write c t s x) as [x' o]. destruct (o =? o_err); [apply finish_extends|apply IH].
+Qed.
+Lemma log_prefix_raw c evs k :
+  exists l', x_log (run_raw c evs) = x_log (run_from c (init_st c) (firstn k evs)) ++ l'.
+Proof. apply log_prefix_from. Qed.
